@@ -298,12 +298,15 @@ def signature(pol, n, events, post, failures):
                         for i in range(len(order)) for j in range(i + 1, len(order)) if order[i] in involved or order[j] in involved)
             if split and not _first_failure_at(pol, n, _grouped(events, pi, learned, pol["local"]), post, failing):
                 return "DCAware.populate:ungrouped-hosts"
+        else:
+            split = False
         if pi is not None and pol["local"] == NODC and post["exp"]["strict"] and NODC in learned.values():
             hz, err = run_events(pol, n, events)
             groups = getattr(hz.policy, "_dc_live_hosts", None)
             stale = isinstance(groups, dict) and any((not k) and v for k, v in groups.items()) and bool(getattr(hz.policy, "local_dc", None))
-            if stale and not _first_failure_at(dict(pol, local="A"), n, _grouped(events, pi, learned, "A"), post, failing):
-                return "DCAware.auto-local-dc:unlocated-hosts-orphaned"
+            if (stale or split) and not _first_failure_at(dict(pol, local="A"), n, _grouped(events, pi, learned, "A"), post, failing):
+                # both mechanisms can be needed to explain one failure; name the one that is visible in this run
+                return "DCAware.auto-local-dc:unlocated-hosts-orphaned" if stale else "DCAware.populate:ungrouped-hosts"
     extra = "[auto]" if (pol["kind"] == "DCAware" and pol["local"] == NODC) else ""
     return "%s%s.%s:%s" % (pol["kind"], extra, ev["e"], t)
 
